@@ -270,7 +270,7 @@ def run(ctx):
             for sig, what, detail in js:
                 rep.add(c, sig, what, detail)
 
-    A.pipeline(ctx, "MpiTypeGen.tla", jobs, process, par=len(jobs) if quick else 8, timeout=900 if quick else 1700)
+    A.pipeline(ctx, "MpiTypeGen.tla", jobs, process, par=len(jobs) if quick else 8, timeout=1700)
     ctx.cov["trees_by_root_constructor"] = roots
     ctx.cov["trees_by_height"] = heights
     ctx.cov["counts"] = list(range(maxcount + 1))
